@@ -595,6 +595,18 @@ class Fn(object):
                 else:
                     d.pop(ev['lhs']['name'], None)
                 rc = tuple(sorted(d.items()))
+            elif ev['k'] in ('store', 'decl') and rc:
+                # `req = helper(...)`: the caller's variable carries what the helper returned; any other store ends that
+                tgt = ev['lhs']['name'] if ev['k'] == 'store' and is_var(ev.get('lhs')) else ev.get('var') if ev['k'] == 'decl' else None
+                val = ev.get('rhs') if ev['k'] == 'store' else ev.get('init')
+                if tgt is not None:
+                    d = dict(rc)
+                    if is_ret(val) and ev.get('op', '=') == '=' and val['name'] in d:
+                        d[tgt] = d[val['name']]
+                        rc = tuple(sorted(d.items()))
+                    elif tgt in d:
+                        d.pop(tgt)
+                        rc = tuple(sorted(d.items()))
             r = on_event(user, s) if on_event else user
             if r is None:
                 return None
@@ -606,7 +618,7 @@ class Fn(object):
             user, rc = st
             r = e.rel()
             extra = []
-            if r is not None and is_ret(r[0]) and const_of(r[2]) is not None:
+            if r is not None and (is_ret(r[0]) or (is_var(r[0]) and r[0]['name'] in dict(rc))) and const_of(r[2]) is not None:
                 d = dict(rc)
                 got = d.get(r[0]['name'])
                 c, op = const_of(r[2]), r[1]
